@@ -153,5 +153,34 @@ def register(gen, T):
         }
         for k, (rx, text) in lexfacts.items():
             out.append(f"def {k} : Bool := {'true' if re.search(rx, text) else 'false'}\n")
+        # the comment lexers, as the model mirrors them (a change of the loop shape is a change of the modelled function)
+        lc = normws(fn_body(lex, "line_comment"))
+        bc = normws(fn_body(lex, "block_comment"))
+        shape = {
+            "lineCommentAsModelled": bool(re.search(
+                r'^if input\.starts_with\(b"//"\) \{ let mut pos = 2; while pos < input\.len\(\) \{ let input_at_pos = &input\[pos\.\.\]; '
+                r'match whitespace_endline\(&input\[pos\.\.\]\) \{ Ok\(\(_, Token::Endline\)\) => return Ok\(\(input_at_pos, Token::Comment\)\), '
+                r'Ok\(\(rest, Token::PhysicalEndline\)\) => pos = input\.len\(\) - rest\.len\(\), _ => pos \+= 1, \} \} '
+                r'Ok\(\(&\[\], Token::Comment\)\) \} else \{ other_token_chars\(input\) \}$', lc)),
+            "blockCommentAsModelled": bool(re.search(
+                r'^if input\.starts_with\(b"/\*"\) \{ (?:// [^{}]*? )?let mut search = &input\[2\.\.\]; loop \{ if search\.len\(\) < 2 \{ break; \} '
+                r'if search\.starts_with\(b"\*/"\) \{ return Ok\(\(&search\[2\.\.\], Token::Comment\)\); \} search = &search\[1\.\.\]; \} '
+                r'(?:// [^{}]*? )?end_of_stream\(\) \} else \{ (?:// [^{}]*? )?other_token_chars\(input\) \}$', bc)),
+        }
+        for k, v in shape.items():
+            out.append(f"def {k} : Bool := {'true' if v else 'false'}\n")
+        # the directive state machine of preprocess_included_file: which tokens keep a line in the `start of line` state,
+        # where a `#` starts a command, what ends a command
+        pif = normws(fn_body(pre, "preprocess_included_file"))
+        dirfacts = {
+            "hashStartsCommandAtStartOfLine": r'\(Token::Hash, CommandParseState::StartOfLine\) => \{',
+            "startOfLineSkipsAllWhitespace": r'\(tok, CommandParseState::StartOfLine\) => \{ if !tok\.is_whitespace\(\) \{ command_state = CommandParseState::NormalContents; \} active_tokens\.push\(next\) \}',
+            "commandNameIsFirstNonWhitespace": r'\(tok, CommandParseState::CommandStart\) if !tok\.is_whitespace\(\) => \{ command_state = CommandParseState::CommandContents;',
+            "endlineEndsCommand": r'\(Token::Endline, CommandParseState::CommandContents\) => \{ preprocess_command\(',
+            "endlineStartsLine": r'\(Token::Endline, _\) => \{ command_state = CommandParseState::StartOfLine; active_tokens\.push\(next\) \}',
+            "otherTokensArePushed": r'_ => active_tokens\.push\(next\), \};',
+        }
+        for k, rx in dirfacts.items():
+            out.append(f"def {k} : Bool := {'true' if re.search(rx, pif) else 'false'}\n")
         out.append(T.footer("SourceMapTables"))
         return "".join(out)
